@@ -136,6 +136,10 @@ def _get_reference_residue(residue, force_field):
     else:
         resname = residue['resname']
     reference_block = force_field.reference_graphs[resname]
+    if 'mutation' in residue or 'modification' in residue:
+        # The reference gets annotated below; do not write into the block of
+        # the force field itself.
+        reference_block = reference_block.copy()
 
     if 'modification' in residue:
         modifications = residue['modification']
